@@ -7,13 +7,14 @@ LIM = {}          # translator/gen_limits.py values of the current source, fille
 
 
 def rfc4884_edge():
-    """original-datagram sizes around the RFC 4884 minimum as the source currently has it (every site)"""
+    """original-datagram sizes around the RFC 4884 minimum as the source currently has it (every site); only values the
+    literal lists do not already contain, so that on the unchanged tree the generator's random stream is what it was"""
     out = []
     for k in ("icmpMinPayload", "icmpMinPayloadTrailer", "icmpMinPayloadWrite", "icmp6MinPayloadTrailer", "icmp6MinPayloadWrite"):
         v = LIM.get(k)
         if v is not None and 8 <= v < 1400:
-            out += [v - 1, v, v + 1, v + 4]
-    return sorted(set(out))
+            out += [v - 1, v, v + 1]
+    return sorted(set(out) - {127, 128, 129})
 
 
 MODULES = ["TinsModel.Props.C05", "TinsModel.Props.Limits.C05"]   # + the constants / limits tied to the source (translator/gen_limits.py)
